@@ -169,10 +169,10 @@ def e2e_descriptions(chk, tier, rnd):
 
 
 def e2e_annotations(chk, tier, rnd):
-    words = ["a", "b c", "x  y", "tab\there", " lead", "trail ", "q"]
+    words = ["a", "b c", "x  y", "tab\there", " lead", "trail ", "q", "*", "**", "x*", "x **", "* x *", "a*b", "a/b", "/ x"]
     texts = [" ".join(t) for n in (1, 2) for t in itertools.product(words, repeat=n)]
     multi = [a + "\n" + b for a in words[:4] for b in words[:4]] + [a + "\r\n  " + b for a in words[:3] for b in words[:3]]
-    cases, meta = [], {}
+    cases, meta, compact = [], {}, {}
     for n, t in enumerate(texts + multi):
         single = "\n" not in t
         tpl = "JSIGHT 0.3\nGET /a %s\n  200 any\n"
@@ -180,6 +180,10 @@ def e2e_annotations(chk, tier, rnd):
             cases.append(rel.case("s%d" % n, tpl % ("// " + t)))
         cases.append(rel.case("m%d" % n, tpl % ("/* " + t + " */")))
         meta[n] = (t, single)
+        # the delimiters written right against the text: "/*x**/" ends at the first "*/"
+        if "*/" not in t and not t.endswith("/") and t.strip() == t:
+            cases.append(rel.case("k%d" % n, tpl % ("/*" + t + "*/")))
+            compact[n] = t
     obs = harness("run", cases)
     rows, src = [], []
     for n, (t, single) in meta.items():
@@ -193,6 +197,10 @@ def e2e_annotations(chk, tier, rnd):
         rows.append({"in": textfn.enc(t), "out": textfn.enc(a), "err": ea, "hasbare": single, "alt": textfn.enc(b), "alterr": eb,
                      "panic": pa or pb})
         src.append(t)
+        if n in compact:
+            c, ec, pc = val("k%d" % n)
+            rows.append({"in": textfn.enc(t), "out": textfn.enc(""), "err": False, "hasbare": False, "alt": textfn.enc(c), "alterr": ec, "panic": pc})
+            src.append(t)
     alphabet = sorted(set(c for r in rows for c in r["in"]))
     for rep in textfn.judge(chk, "annotation_e2e", [textfn.DEC.get(c, c) for c in alphabet], 10 ** 6, rows, "annotation_end_to_end"):
         t = src[rep["row"] - 1]
